@@ -32,6 +32,12 @@ type SeqSpec struct {
 	New       func(cfg string) Sys
 	Depth     int
 	MaxStates int // cap on frontier size per config per level (0 = none)
+	// CheckEveryStep also runs Check() after every replayed operation of a
+	// path, not only after the last one: observers folded into Check are then
+	// interleaved with the mutations exactly as a caller could interleave them,
+	// so a defect that makes an observer change hidden state (a read cache
+	// that is never invalidated) is reached. Requires a non-destructive Check.
+	CheckEveryStep bool
 	// NonTrivial decides whether a path counts toward distinct_nontrivial;
 	// default: length >= 2.
 	NonTrivial func(cfg string, path []string) bool
@@ -52,6 +58,11 @@ func runPath(spec *SeqSpec, cfg string, path []string) (s Sys, obs []string, v *
 			vv = pv
 		}
 		obs = append(obs, o)
+		if vv == nil && spec.CheckEveryStep && i < len(path)-1 {
+			if pv := Guard("check", func() { vv = s.Check() }); pv != nil {
+				vv = pv
+			}
+		}
 		if vv != nil {
 			if vv.Op == "" {
 				vv.Op = opName(op)
